@@ -835,4 +835,390 @@ pub proof fn lemma_hold_step(base: real, d: real, tx: GbpTransaction)
     if base * d == 0real { assert(base == 0real) by(nonlinear_arith) requires base * d == 0real, d > 0real; let x = ratio_effect(tx, d); assert(base * x == 0real) by(nonlinear_arith) requires base == 0real; }
 }
 
+
+// ---------- INV_POS: conversion factors as one generic fold, and the claims pending under the 30-day rule in current units ----------
+/// composition, in line order, of the SPLIT/UNSPLIT lines of t among lines lo..hi that are dated before day `cut`, applied to c0
+pub open spec fn rf(txs: Seq<GbpTransaction>, lo: int, hi: int, t: Seq<char>, cut: int, c0: real) -> real
+    decreases hi - lo
+{
+    if hi <= lo || hi > txs.len() || lo < 0 { c0 } else {
+        let c = rf(txs, lo, hi - 1, t, cut, c0); let tx = txs[hi - 1];
+        if tx.ticker@ == t && tx.date.d() < cut { ratio_effect(tx, c) } else { c }
+    }
+}
+pub proof fn lemma_rf_split(txs: Seq<GbpTransaction>, lo: int, mid: int, hi: int, t: Seq<char>, cut: int, c0: real)
+    requires 0 <= lo <= mid <= hi <= txs.len()
+    ensures rf(txs, lo, hi, t, cut, c0) == rf(txs, mid, hi, t, cut, rf(txs, lo, mid, t, cut, c0))
+    decreases hi - mid
+{
+    if hi > mid { lemma_rf_split(txs, lo, mid, hi - 1, t, cut, c0); }
+}
+pub proof fn lemma_ratio_effect_linear(tx: GbpTransaction, c: real, x: real)
+    ensures ratio_effect(tx, c * x) == c * ratio_effect(tx, x)
+{
+    match tx.operation {
+        Operation::Split { ratio } => { let r = ratio.v(); assert((c * x) * r == c * (x * r)) by(nonlinear_arith); }
+        Operation::Unsplit { ratio } => { let r = ratio.v(); if r != 0real { assert((c * x) / r == c * (x / r)) by(nonlinear_arith) requires r != 0real; } }
+        _ => {}
+    }
+}
+pub proof fn lemma_rf_linear(txs: Seq<GbpTransaction>, lo: int, hi: int, t: Seq<char>, cut: int, c0: real)
+    ensures rf(txs, lo, hi, t, cut, c0) == c0 * rf(txs, lo, hi, t, cut, 1real)
+    decreases hi - lo
+{
+    if hi <= lo || hi > txs.len() || lo < 0 { assert(c0 * 1real == c0) by(nonlinear_arith); } else {
+        lemma_rf_linear(txs, lo, hi - 1, t, cut, c0);
+        let tx = txs[hi - 1];
+        if tx.ticker@ == t && tx.date.d() < cut { lemma_ratio_effect_linear(tx, c0, rf(txs, lo, hi - 1, t, cut, 1real)); }
+    }
+}
+pub proof fn lemma_rf_pos(txs: Seq<GbpTransaction>, lo: int, hi: int, t: Seq<char>, cut: int, c0: real)
+    requires ratios_pos(txs), c0 > 0real
+    ensures rf(txs, lo, hi, t, cut, c0) > 0real
+    decreases hi - lo
+{
+    if hi <= lo || hi > txs.len() || lo < 0 {} else {
+        lemma_rf_pos(txs, lo, hi - 1, t, cut, c0);
+        let c = rf(txs, lo, hi - 1, t, cut, c0); let tx = txs[hi - 1];
+        match tx.operation {
+            Operation::Split { ratio } => { let r = ratio.v(); assert(c * r > 0real) by(nonlinear_arith) requires c > 0real, r > 0real; }
+            Operation::Unsplit { ratio } => { let r = ratio.v(); assert(c / r > 0real) by(nonlinear_arith) requires c > 0real, r > 0real; }
+            _ => {}
+        }
+    }
+}
+/// two cut days that separate the lines of t among lo..hi in the same way give the same fold
+pub proof fn lemma_rf_cut(txs: Seq<GbpTransaction>, lo: int, hi: int, t: Seq<char>, c1: int, c2: int, c0: real)
+    requires forall|j: int| lo <= j < hi && 0 <= j < txs.len() && (#[trigger] txs[j]).ticker@ == t ==> (txs[j].date.d() < c1 <==> txs[j].date.d() < c2)
+    ensures rf(txs, lo, hi, t, c1, c0) == rf(txs, lo, hi, t, c2, c0)
+    decreases hi - lo
+{
+    if hi <= lo || hi > txs.len() || lo < 0 {} else { lemma_rf_cut(txs, lo, hi - 1, t, c1, c2, c0); }
+}
+/// no line of t dated before the cut among lo..hi: nothing happens
+pub proof fn lemma_rf_skip(txs: Seq<GbpTransaction>, lo: int, hi: int, t: Seq<char>, cut: int, c0: real)
+    requires forall|j: int| lo <= j < hi && 0 <= j < txs.len() && (#[trigger] txs[j]).ticker@ == t ==> txs[j].date.d() >= cut
+    ensures rf(txs, lo, hi, t, cut, c0) == c0
+    decreases hi - lo
+{
+    if hi <= lo || hi > txs.len() || lo < 0 {} else { lemma_rf_skip(txs, lo, hi - 1, t, cut, c0); }
+}
+/// the disposal day's own corporate actions, as a fold over the day's lines i..e
+pub proof fn lemma_day_factor_rf(txs: Seq<GbpTransaction>, s: int, i: int, e: int, n: int, c0: real)
+    requires 0 <= i <= s < e <= txs.len(), 0 <= n <= txs.len(), day_range(txs, i, e, txs[s].date.d())
+    ensures day_factor(txs, s, n, c0) == rf(txs, i, if n <= i { i } else if n <= e { n } else { e }, txs[s].ticker@, txs[s].date.d() + 1, c0)
+    decreases n
+{
+    if n > 0 {
+        lemma_day_factor_rf(txs, s, i, e, n - 1, c0);
+        let tx = txs[n - 1];
+        if n - 1 < i || n - 1 >= e { assert(tx.date.d() != txs[s].date.d()); }
+    }
+}
+/// the look-ahead factor for a later line k, as a fold over the lines from the end of the disposal day
+pub proof fn lemma_win_fold_rf(txs: Seq<GbpTransaction>, s: int, i: int, e: int, hi: int, cut: int)
+    requires 0 <= i <= s < e <= hi <= txs.len(), day_range(txs, i, e, txs[s].date.d()), sorted_by_date(txs), cut <= txs[s].date.d() + 31
+    ensures win_fold(txs, s, hi, cut) == rf(txs, e, hi, txs[s].ticker@, cut, day_factor(txs, s, txs.len() as int, 1real))
+    decreases hi
+{
+    if hi <= s + 1 { assert(hi == e); }
+    else {
+        let tx = txs[hi - 1];
+        if hi > e {
+            lemma_win_fold_rf(txs, s, i, e, hi - 1, cut);
+            assert(tx.date.d() != txs[s].date.d()); assert(txs[s].date.d() <= tx.date.d());
+        } else {
+            // hi == e > s + 1: the lines s+1..e are of the disposal day, outside the window
+            lemma_win_fold_same_day(txs, s, i, e, hi, cut);
+        }
+    }
+}
+pub proof fn lemma_win_fold_same_day(txs: Seq<GbpTransaction>, s: int, i: int, e: int, hi: int, cut: int)
+    requires 0 <= i <= s < e <= txs.len(), s < hi <= e, day_range(txs, i, e, txs[s].date.d())
+    ensures win_fold(txs, s, hi, cut) == day_factor(txs, s, txs.len() as int, 1real)
+    decreases hi
+{
+    if hi <= s + 1 {} else { lemma_win_fold_same_day(txs, s, i, e, hi - 1, cut); assert(txs[hi - 1].date.d() == txs[s].date.d()); }
+}
+/// units of the acquisition at line k per unit at line c (c the start of a day or a position inside its corporate-action pass)
+pub open spec fn gfac(txs: Seq<GbpTransaction>, c: int, k: int, t: Seq<char>) -> real {
+    if 0 <= k < txs.len() { rf(txs, c, k, t, txs[k].date.d(), 1real) } else { 1real }
+}
+/// KEY: the factor the look-ahead of the sale at line s applies to a purchase at line k inside its window is the composition of the
+/// splits of the sale's security dated from the disposal day up to, not including, the purchase's day
+pub proof fn lemma_split_factor_gfac(txs: Seq<GbpTransaction>, s: int, i: int, e: int, k: int)
+    requires 0 <= i <= s < e <= k < txs.len(), day_range(txs, i, e, txs[s].date.d()), sorted_by_date(txs), txs[k].date.d() <= txs[s].date.d() + 30
+    ensures split_factor(txs, s, k) == gfac(txs, i, k, txs[s].ticker@)
+{
+    let t = txs[s].ticker@; let ds = txs[s].date.d(); let dk = txs[k].date.d();
+    assert(dk != ds); assert(ds <= dk);
+    lemma_win_fold_rf(txs, s, i, e, k, dk);
+    lemma_day_factor_rf(txs, s, i, e, txs.len() as int, 1real);
+    assert forall|j: int| i <= j < e && 0 <= j < txs.len() && (#[trigger] txs[j]).ticker@ == t implies (txs[j].date.d() < ds + 1 <==> txs[j].date.d() < dk) by { assert(txs[j].date.d() == ds); }
+    lemma_rf_cut(txs, i, e, t, ds + 1, dk, 1real);
+    lemma_rf_split(txs, i, e, k, t, dk, 1real);
+}
+
+
+pub proof fn lemma_day_factor_pos(txs: Seq<GbpTransaction>, s: int, n: int, c0: real)
+    requires ratios_pos(txs), c0 > 0real
+    ensures day_factor(txs, s, n, c0) > 0real
+    decreases n
+{
+    if n <= 0 || n > txs.len() || s < 0 || s >= txs.len() {} else {
+        lemma_day_factor_pos(txs, s, n - 1, c0);
+        let c = day_factor(txs, s, n - 1, c0); let tx = txs[n - 1];
+        match tx.operation {
+            Operation::Split { ratio } => { let r = ratio.v(); assert(c * r > 0real) by(nonlinear_arith) requires c > 0real, r > 0real; }
+            Operation::Unsplit { ratio } => { let r = ratio.v(); assert(c / r > 0real) by(nonlinear_arith) requires c > 0real, r > 0real; }
+            _ => {}
+        }
+    }
+}
+pub proof fn lemma_win_fold_pos(txs: Seq<GbpTransaction>, s: int, hi: int, cut: int)
+    requires ratios_pos(txs)
+    ensures win_fold(txs, s, hi, cut) > 0real
+    decreases hi
+{
+    if hi <= s + 1 || hi > txs.len() || s < 0 { lemma_day_factor_pos(txs, s, txs.len() as int, 1real); } else {
+        lemma_win_fold_pos(txs, s, hi - 1, cut);
+        let c = win_fold(txs, s, hi - 1, cut); let tx = txs[hi - 1];
+        match tx.operation {
+            Operation::Split { ratio } => { let r = ratio.v(); assert(c * r > 0real) by(nonlinear_arith) requires c > 0real, r > 0real; }
+            Operation::Unsplit { ratio } => { let r = ratio.v(); assert(c / r > 0real) by(nonlinear_arith) requires c > 0real, r > 0real; }
+            _ => {}
+        }
+    }
+}
+/// claims pending under the 30-day rule against purchases of t still to come, converted into the units current at line c
+pub open spec fn f_pend(fc: Map<usize, Decimal>, txs: Seq<GbpTransaction>, c: int, t: Seq<char>) -> spec_fn(int) -> real {
+    |k: int| if 0 <= k < txs.len() && txs[k].operation is Buy && txs[k].ticker@ == t { fc_get(fc, k as usize) / gfac(txs, c, k, t) } else { 0real }
+}
+pub open spec fn pend(fc: Map<usize, Decimal>, txs: Seq<GbpTransaction>, c: int, t: Seq<char>) -> real { isum(txs.len() as int, f_pend(fc, txs, c, t)) }
+/// every pending claim is on a line at or after n, dated no more than 30 days after day d
+pub open spec fn fc_within(fc: Map<usize, Decimal>, txs: Seq<GbpTransaction>, n: int, d: int) -> bool {
+    forall|k: usize| #![trigger fc_get(fc, k)] fc_get(fc, k) != 0real ==> n <= (k as int) < txs.len() && txs[k as int].date.d() <= d + 30
+}
+/// P1: seen from the sale at line s (day i..e), the pending claims on its security are what the look-ahead's own ledger says
+pub proof fn lemma_pend_eq_pending(fc: Map<usize, Decimal>, txs: Seq<GbpTransaction>, s: int, i: int, e: int)
+    requires 0 <= i <= s < e <= txs.len() <= usize::MAX, day_range(txs, i, e, txs[s].date.d()), sorted_by_date(txs), ratios_pos(txs), fc_within(fc, txs, e, txs[s].date.d())
+    ensures pend(fc, txs, i, txs[s].ticker@) == pending_claims(fc, txs, s)
+{
+    let t = txs[s].ticker@;
+    assert forall|k: int| 0 <= k < txs.len() implies #[trigger] f_pend(fc, txs, i, t)(k) == f_pending(fc, txs, s)(k) by {
+        let a = fc_get(fc, k as usize);
+        if txs[k].operation is Buy && txs[k].ticker@ == t {
+            let g = gfac(txs, i, k, t); lemma_rf_pos(txs, i, k, t, txs[k].date.d(), 1real);
+            if a == 0real {
+                assert(0real / g == 0real) by(nonlinear_arith) requires g > 0real;
+                if s < k { let f = split_factor(txs, s, k); lemma_win_fold_pos(txs, s, k, txs[k].date.d()); assert(0real / f == 0real) by(nonlinear_arith) requires f > 0real; }
+            } else {
+                assert(e <= k && txs[k].date.d() <= txs[s].date.d() + 30);
+                lemma_split_factor_gfac(txs, s, i, e, k);
+            }
+        }
+    }
+    isum_ext(txs.len() as int, f_pend(fc, txs, i, t), f_pending(fc, txs, s));
+}
+/// P2: one line of the day's corporate-action pass rescales the pending claims of its own security, like the pool
+pub proof fn lemma_pend_ca_step(fc: Map<usize, Decimal>, txs: Seq<GbpTransaction>, c: int, t: Seq<char>)
+    requires 0 <= c < txs.len() <= usize::MAX, sorted_by_date(txs), ratios_pos(txs),
+        forall|k: usize| #![trigger fc_get(fc, k)] fc_get(fc, k) != 0real ==> (k as int) < txs.len() && txs[k as int].date.d() > txs[c].date.d()
+    ensures pend(fc, txs, c + 1, t) == (if txs[c].ticker@ == t { ratio_effect(txs[c], pend(fc, txs, c, t)) } else { pend(fc, txs, c, t) })
+{
+    let tx = txs[c]; let m = if tx.ticker@ == t { ratio_effect(tx, 1real) } else { 1real };
+    assert(m > 0real) by {
+        match tx.operation {
+            Operation::Split { ratio } => { let r = ratio.v(); assert(1real * r > 0real) by(nonlinear_arith) requires r > 0real; }
+            Operation::Unsplit { ratio } => { let r = ratio.v(); assert(1real / r > 0real) by(nonlinear_arith) requires r > 0real; }
+            _ => {}
+        }
+    }
+    assert forall|k: int| 0 <= k < txs.len() implies #[trigger] f_pend(fc, txs, c + 1, t)(k) == m * f_pend(fc, txs, c, t)(k) by {
+        let a = fc_get(fc, k as usize);
+        if txs[k].operation is Buy && txs[k].ticker@ == t {
+            let cut = txs[k].date.d();
+            let g0 = gfac(txs, c, k, t); let g1 = gfac(txs, c + 1, k, t);
+            lemma_rf_pos(txs, c, k, t, cut, 1real); lemma_rf_pos(txs, c + 1, k, t, cut, 1real);
+            if a == 0real {
+                assert(0real / g0 == 0real) by(nonlinear_arith) requires g0 > 0real;
+                assert(0real / g1 == 0real) by(nonlinear_arith) requires g1 > 0real;
+                assert(m * 0real == 0real) by(nonlinear_arith);
+            } else {
+                assert(txs[k].date.d() > tx.date.d());
+                assert(c < k) by { if k <= c { assert(txs[k].date.d() <= txs[c].date.d()); } }
+                lemma_rf_split(txs, c, c + 1, k, t, cut, 1real);
+                assert(rf(txs, c, c, t, cut, 1real) == 1real);
+                let first = rf(txs, c, c + 1, t, cut, 1real);
+                assert(first == m);
+                lemma_rf_linear(txs, c + 1, k, t, cut, first);
+                assert(g0 == m * g1);
+                assert(a / g1 == m * (a / g0)) by(nonlinear_arith) requires g0 == m * g1, m > 0real, g1 > 0real;
+            }
+        } else {
+            assert(m * 0real == 0real) by(nonlinear_arith);
+        }
+    }
+    isum_scale(txs.len() as int, f_pend(fc, txs, c, t), f_pend(fc, txs, c + 1, t), m);
+    let p = pend(fc, txs, c, t);
+    if tx.ticker@ == t { lemma_ratio_effect_linear(tx, p, 1real); assert(p * 1real == p) by(nonlinear_arith); assert(m * p == p * m) by(nonlinear_arith); }
+    else { assert(1real * p == p) by(nonlinear_arith); }
+}
+/// P3: a purchase reached by the day loop takes its claims out of the pending total, one for one (no split lies between the
+/// start of its day and the purchase)
+pub proof fn lemma_pend_remove(fc0: Map<usize, Decimal>, fc1: Map<usize, Decimal>, txs: Seq<GbpTransaction>, i: int, k: int, t: Seq<char>)
+    requires 0 <= i <= k < txs.len() <= usize::MAX, txs[k].operation is Buy,
+        forall|j: int| i <= j <= k ==> (#[trigger] txs[j]).date.d() == txs[k].date.d(),
+        fc_get(fc1, k as usize) == 0real, forall|j: usize| #![trigger fc_get(fc1, j)] j != k as usize ==> fc_get(fc1, j) == fc_get(fc0, j)
+    ensures pend(fc1, txs, i, t) == pend(fc0, txs, i, t) - (if txs[k].ticker@ == t { fc_get(fc0, k as usize) } else { 0real })
+{
+    let dl = if txs[k].ticker@ == t { -fc_get(fc0, k as usize) } else { 0real };
+    assert(f_pend(fc1, txs, i, t)(k) == f_pend(fc0, txs, i, t)(k) + dl) by {
+        if txs[k].ticker@ == t {
+            lemma_rf_skip(txs, i, k, t, txs[k].date.d(), 1real);
+            let a = fc_get(fc0, k as usize);
+            assert(a / 1real == a) by(nonlinear_arith); assert(0real / 1real == 0real) by(nonlinear_arith);
+        }
+    }
+    assert forall|j: int| 0 <= j < txs.len() && j != k implies #[trigger] f_pend(fc0, txs, i, t)(j) == f_pend(fc1, txs, i, t)(j) by {
+        assert(fc_get(fc1, j as usize) == fc_get(fc0, j as usize));
+    }
+    isum_update(txs.len() as int, f_pend(fc0, txs, i, t), f_pend(fc1, txs, i, t), k, dl);
+}
+pub proof fn lemma_pend_zero(fc: Map<usize, Decimal>, txs: Seq<GbpTransaction>, c: int, t: Seq<char>)
+    requires txs.len() <= usize::MAX, ratios_pos(txs), forall|k: usize| #![trigger fc_get(fc, k)] (k as int) < txs.len() ==> fc_get(fc, k) == 0real
+    ensures pend(fc, txs, c, t) == 0real
+{
+    assert forall|k: int| 0 <= k < txs.len() implies #[trigger] f_pend(fc, txs, c, t)(k) == 0real by {
+        if txs[k].operation is Buy && txs[k].ticker@ == t {
+            let g = gfac(txs, c, k, t); lemma_rf_pos(txs, c, k, t, txs[k].date.d(), 1real);
+            assert(fc_get(fc, k as usize) == 0real);
+            assert(0real / g == 0real) by(nonlinear_arith) requires g > 0real;
+        }
+    }
+    isum_zero(txs.len() as int, f_pend(fc, txs, c, t));
+}
+
+
+/// a Same Day match of q shares takes exactly q out of the day's available shares (proportional consumption)
+pub proof fn lemma_sameday_avail(l0: Seq<AcquisitionLot>, l1: Seq<AcquisitionLot>, d: int, q: real, a: real)
+    requires wf_lots(l0), l1.len() == l0.len(), a == avail_on(l0, d), a > 0real, 0real < q <= a,
+        forall|k: int| 0 <= k < l0.len() ==> lot_same_but_consumed(#[trigger] l1[k], l0[k])
+            && l1[k].consumed.v() == l0[k].consumed.v() + (if lot_matching(l0[k], d) { lot_avail(l0[k]) * (q / a) } else { 0real }),
+    ensures avail_on(l1, d) == a - q
+{
+    let r = q / a;
+    let dl = |l: AcquisitionLot| (-r) * f_pos_avail_on(d)(l);
+    assert forall|k: int| 0 <= k < l0.len() implies f_avail_on(d)(l1[k]) == f_avail_on(d)(#[trigger] l0[k]) + dl(l0[k]) by {
+        let x = l0[k]; let y = l1[k];
+        assert(lot_same_but_consumed(y, x));
+        let av = lot_avail(x);
+        if lot_matching(x, d) {
+            assert(lot_avail(y) == av - av * r);
+            assert(av - av * r == av + (-r) * av) by(nonlinear_arith);
+        } else {
+            assert(lot_avail(y) == av);
+            assert(f_pos_avail_on(d)(x) == 0real);
+            assert((-r) * 0real == 0real) by(nonlinear_arith);
+        }
+    }
+    rsum_ext_add(l0, l1, f_avail_on(d), f_avail_on(d), dl);
+    rsum_scale(l0, f_pos_avail_on(d), dl, -r);
+    lemma_pos_avail_eq(l0, d);
+    assert((-(q / a)) * a == -q) by(nonlinear_arith) requires a > 0real;
+}
+/// pooling the day's remainder leaves nothing of the day available
+pub proof fn lemma_pool_avail(l0: Seq<AcquisitionLot>, l1: Seq<AcquisitionLot>, d: int)
+    requires l1.len() == l0.len(), forall|k: int| 0 <= k < l0.len() ==> ((#[trigger] l0[k]).date.d() == l1[k].date.d()) && (l0[k].date.d() == d ==> lot_avail(l1[k]) == 0real)
+    ensures avail_on(l1, d) == 0real
+{
+    assert forall|k: int| 0 <= k < l1.len() implies f_avail_on(d)(#[trigger] l1[k]) == 0real by { assert(l0[k].date.d() == l1[k].date.d()); }
+    rsum_zero(l1, f_avail_on(d));
+}
+/// shares of t available for matching on day d, over all ledgers
+pub open spec fn lav(m: Map<Seq<char>, matcher::AcquisitionLedger>, t: Seq<char>, d: int) -> real { if m.contains_key(t) { avail_on(m[t]@, d) } else { 0real } }
+
+
+// ---------- INV_POS steps in Matcher::process ----------
+/// every pending claim is on a line of the list, dated no more than 30 days after day d
+pub open spec fn fc_bound(fc: Map<usize, Decimal>, txs: Seq<GbpTransaction>, d: int) -> bool {
+    forall|k: usize| #![trigger fc_get(fc, k)] fc_get(fc, k) != 0real ==> (k as int) < txs.len() && txs[k as int].date.d() <= d + 30
+}
+pub proof fn lemma_ratio_effect_add(tx: GbpTransaction, a: real, b: real)
+    ensures ratio_effect(tx, a + b) == ratio_effect(tx, a) + ratio_effect(tx, b)
+{
+    match tx.operation {
+        Operation::Split { ratio } => { let r = ratio.v(); assert((a + b) * r == a * r + b * r) by(nonlinear_arith); }
+        Operation::Unsplit { ratio } => { let r = ratio.v(); if r != 0real { assert((a + b) / r == a / r + b / r) by(nonlinear_arith) requires r != 0real; } }
+        _ => {}
+    }
+}
+/// no lot of day d yet: nothing of day d is available
+pub proof fn lemma_lav_none(m: Map<Seq<char>, matcher::AcquisitionLedger>, t: Seq<char>, d: int)
+    requires lots_before(m, d)
+    ensures lav(m, t, d) == 0real
+{
+    if m.contains_key(t) {
+        assert forall|j: int| 0 <= j < m[t]@.len() implies f_avail_on(d)(#[trigger] m[t]@[j]) == 0real by {}
+        rsum_zero(m[t]@, f_avail_on(d));
+    }
+}
+/// everything allocated: nothing is available
+pub proof fn lemma_lav_allocated(m: Map<Seq<char>, matcher::AcquisitionLedger>, t: Seq<char>, d: int)
+    requires all_allocated(m)
+    ensures lav(m, t, d) == 0real
+{
+    if m.contains_key(t) {
+        assert forall|j: int| 0 <= j < m[t]@.len() implies f_avail_on(d)(#[trigger] m[t]@[j]) == 0real by {}
+        rsum_zero(m[t]@, f_avail_on(d));
+    }
+}
+/// adding the lot of BUY line k (reserved = the claims already made against it): available - pending grows by the quantity bought
+pub proof fn lemma_add_lot_pos(led0: Map<Seq<char>, matcher::AcquisitionLedger>, led1: Map<Seq<char>, matcher::AcquisitionLedger>,
+        fc0: Map<usize, Decimal>, fc1: Map<usize, Decimal>, txs: Seq<GbpTransaction>, offs: Seq<Decimal>, i: int, k: int, t: Seq<char>)
+    requires
+        0 <= i <= k < txs.len() <= usize::MAX, txs[k].operation is Buy,
+        forall|j: int| i <= j <= k ==> (#[trigger] txs[j]).date.d() == txs[k].date.d(),
+        ({ let tk = txs[k].ticker@; let l0 = if led0.contains_key(tk) { led0[tk]@ } else { Seq::<AcquisitionLot>::empty() };
+           led1.dom() == led0.dom().insert(tk) && (forall|q: Seq<char>| q != tk && led0.contains_key(q) ==> #[trigger] led1[q] == led0[q])
+           && led1[tk]@.len() == l0.len() + 1 && led1[tk]@.drop_last() == l0
+           && lot_is_tx(led1[tk]@.last(), tk, txs, offs) && led1[tk]@.last().transaction_idx == k
+           && led1[tk]@.last().consumed.v() == 0real && led1[tk]@.last().in_pool.v() == 0real
+           && led1[tk]@.last().reserved.v() == fc_get(fc0, k as usize) }),
+        forall|j: usize| #![trigger fc_get(fc1, j)] fc_get(fc1, j) == (if j as int == k { 0real } else { fc_get(fc0, j) }),
+    ensures
+        lav(led1, t, txs[k].date.d()) - pend(fc1, txs, i, t) == lav(led0, t, txs[k].date.d()) - pend(fc0, txs, i, t) + (if txs[k].ticker@ == t { buy_qty(txs[k]) } else { 0real }),
+{
+    let tk = txs[k].ticker@; let d = txs[k].date.d();
+    let l0 = if led0.contains_key(tk) { led0[tk]@ } else { Seq::<AcquisitionLot>::empty() };
+    let l1 = led1[tk]@; let lot = l1.last();
+    lemma_pend_remove(fc0, fc1, txs, i, k, t);
+    if t == tk {
+        assert(l1 =~= l0.push(lot));
+        rsum_push(l0, lot, f_avail_on(d));
+        if !led0.contains_key(tk) { rsum_empty::<AcquisitionLot>(f_avail_on(d)); }
+        assert(lot.date.d() == d);
+    } else {
+        if led0.contains_key(t) { assert(led1[t] == led0[t]); } else { assert(!led1.contains_key(t)); }
+    }
+}
+/// claims on another security's purchases do not count for t
+pub proof fn lemma_pend_frame(fc0: Map<usize, Decimal>, fc1: Map<usize, Decimal>, txs: Seq<GbpTransaction>, c: int, t: Seq<char>)
+    requires txs.len() <= usize::MAX, forall|k: usize| #![trigger fc_get(fc1, k)] fc_get(fc1, k) != fc_get(fc0, k) ==> (k as int) < txs.len() && txs[k as int].ticker@ != t
+    ensures pend(fc1, txs, c, t) == pend(fc0, txs, c, t)
+{
+    assert forall|k: int| 0 <= k < txs.len() implies #[trigger] f_pend(fc1, txs, c, t)(k) == f_pend(fc0, txs, c, t)(k) by {
+        if txs[k].ticker@ == t { assert(fc_get(fc1, k as usize) == fc_get(fc0, k as usize)); }
+    }
+    isum_ext(txs.len() as int, f_pend(fc1, txs, c, t), f_pend(fc0, txs, c, t));
+}
+
+
+/// INV_POS: per security, pool + what is still available of the day's purchases == the position (acquisitions less disposals,
+/// rescaled) + the shares already disposed of under the 30-day rule whose purchases are still to come (in current units)
+pub open spec fn inv_pos(pools: Map<Seq<char>, Section104Holding>, ledgers: Map<Seq<char>, matcher::AcquisitionLedger>, held: Map<Seq<char>, Decimal>,
+                         fc: Map<usize, Decimal>, txs: Seq<GbpTransaction>, c: int, cur: int) -> bool {
+    forall|t: Seq<char>| #![trigger pool_q(pools, t)] pool_q(pools, t) + lav(ledgers, t, cur) == hq(held, t) + pend(fc, txs, c, t)
+}
+
 } // verus!
